@@ -20,6 +20,7 @@
 #include <deque>
 #include <functional>
 #include <iostream>
+#include <limits>
 #include <map>
 #include <memory>
 #include <mutex>
@@ -36,11 +37,12 @@
 #include "common.h"
 
 namespace vt {
-inline long long now_ticks = 0;        // virtual clock (ms)
-inline unsigned long notifies = 0;     // notify_all / notify_one calls on interposed condition variables
+inline std::atomic<long long> now_ticks{0};      // virtual clock (ms)
+inline std::atomic<unsigned long> notifies{0};   // notify_all / notify_one calls on the watched condition variable
+inline const void *watch_cv = nullptr;           // the scheduler's `_cond` (nullptr: count every interposed cv)
 inline bool single_thread = true;      // wait_until advances the clock instead of blocking
 inline std::vector<std::string> *trace = nullptr;   // wait_until events (run mode)
-inline long long reads = 0;            // clock reads since the clock last advanced / the case started
+inline std::atomic<long long> reads{0};   // clock reads since the clock last advanced / the case started
 inline long long spins = 0;            // consecutive waits that did not advance the clock
 inline long long horizon = 0;          // run mode: a wait beyond this tick means "blocked forever"
 
@@ -48,6 +50,46 @@ inline long long horizon = 0;          // run mode: a wait beyond this tick mean
     std::cout << "FATAL " << what << std::endl;
     std::cerr << "verif: " << what << std::endl;
     _exit(rc);
+}
+
+// ---- multi-thread virtual time (thread / thread-pool mode): real threads, virtual clock.
+// A thread that waits on an interposed condition variable registers here; the controlling (main) thread acts only
+// when every worker thread is parked (`quiesce`), and advances the clock from one wait deadline to the next.
+constexpr long long never = std::numeric_limits<long long>::max();
+struct waiter {
+    const void *cv;
+    long long deadline;
+    bool woken = false;
+};
+inline std::mutex G;
+inline std::condition_variable Gcv;
+inline std::vector<waiter *> waiters;
+inline int blocked = 0;      // parked worker threads (a notified / timed-out waiter stops counting at once)
+inline int nthreads = 0;     // worker threads of the case
+
+inline void quiesce() {
+    std::unique_lock g(G);
+    if (!Gcv.wait_for(g, std::chrono::seconds(30), [] { return blocked == nthreads; }))
+        fatal("hang: the worker threads did not become idle", 43);
+}
+// wake the waiters selected by `sel`; G must be held
+template <typename Sel>
+inline void wake_lk(Sel sel, bool only_one) {
+    for (waiter *w : waiters) {
+        if (!w->woken && sel(*w)) {
+            w->woken = true;
+            --blocked;
+            if (only_one) break;
+        }
+    }
+    Gcv.notify_all();
+}
+// earliest deadline a parked thread waits for (never = nobody waits with a deadline); G must be held
+inline long long next_deadline_lk() {
+    long long d = never;
+    for (waiter *w : waiters)
+        if (!w->woken) d = std::min(d, w->deadline);
+    return d;
 }
 }  // namespace vt
 
@@ -62,7 +104,7 @@ struct verif_system_clock {
     static time_point now() noexcept {
         // virtual time only advances in wait_until: a thread that keeps reading the clock without ever blocking spins
         if (++vt::reads > 200000) vt::fatal("livelock: the scheduling thread polls the clock without ever blocking", 46);
-        return time_point(duration(vt::now_ticks));
+        return time_point(duration(vt::now_ticks.load()));
     }
 };
 }  // namespace chrono
@@ -94,21 +136,48 @@ public:
 };
 
 class verif_condition_variable {
-    std::condition_variable_any _cv;
+    // multi-thread mode: park the calling thread until notified or until the virtual clock reaches `t`
+    template <typename Lock>
+    bool park(Lock &lk, long long t) {
+        std::unique_lock g(vt::G);
+        if (t <= vt::now_ticks.load()) {
+            // deadline already reached: a timed wait returns at once
+            if (++vt::spins > 100000)
+                vt::fatal("livelock: the scheduling thread keeps waiting for a time point that is not in the future", 46);
+            return false;
+        }
+        vt::waiter w{this, t};
+        vt::waiters.push_back(&w);
+        ++vt::blocked;
+        vt::Gcv.notify_all();
+        lk.unlock();   // registered before the mutex is released: no notification sent under the mutex can be missed
+        vt::Gcv.wait(g, [&] { return w.woken; });
+        vt::waiters.erase(std::find(vt::waiters.begin(), vt::waiters.end(), &w));
+        bool timed_out = t <= vt::now_ticks.load();
+        g.unlock();
+        lk.lock();
+        return !timed_out;
+    }
 
 public:
     void notify_all() noexcept {
-        ++vt::notifies;
-        _cv.notify_all();
+        if (!vt::watch_cv || vt::watch_cv == this) ++vt::notifies;
+        if (!vt::single_thread) {
+            std::lock_guard g(vt::G);
+            vt::wake_lk([&](const vt::waiter &w) { return w.cv == this; }, false);
+        }
     }
     void notify_one() noexcept {
-        ++vt::notifies;
-        _cv.notify_one();
+        if (!vt::watch_cv || vt::watch_cv == this) ++vt::notifies;
+        if (!vt::single_thread) {
+            std::lock_guard g(vt::G);
+            vt::wake_lk([&](const vt::waiter &w) { return w.cv == this; }, true);
+        }
     }
     template <typename Lock>
     void wait(Lock &lk) {
         if (vt::single_thread) vt::fatal("hang: wait() without deadline in the only thread", 43);
-        _cv.wait(lk);
+        park(lk, vt::never);
     }
     template <typename Lock, typename Pred>
     void wait(Lock &lk, Pred p) {
@@ -118,10 +187,13 @@ public:
     std::cv_status wait_until(Lock &lk, const std::chrono::time_point<Clock, Dur> &tp) {
         if (!lk.owns_lock()) vt::fatal("wait_until without holding the lock", 44);
         long long t = std::chrono::duration_cast<std::chrono::milliseconds>(tp.time_since_epoch()).count();
-        if (!vt::single_thread) vt::fatal("wait_until in multi-thread mode is not supported by this harness", 45);
+        if (!vt::single_thread) {
+            if (tp == std::chrono::time_point<Clock, Dur>::max()) t = vt::never;
+            return park(lk, t) ? std::cv_status::no_timeout : std::cv_status::timeout;
+        }
         // the only thread blocks until the deadline: nobody can notify, so the wait ends exactly at tp
         if (t > vt::horizon) vt::fatal("hang: the scheduling thread blocks with no sleeper that could wake it", 43);
-        if (vt::trace) vt::trace->push_back("wait:" + std::to_string(vt::now_ticks) + "->" + std::to_string(t));
+        if (vt::trace) vt::trace->push_back("wait:" + std::to_string(vt::now_ticks.load()) + "->" + std::to_string(t));
         if (t > vt::now_ticks) {
             vt::now_ticks = t;
             vt::spins = 0;
@@ -154,6 +226,7 @@ static scheduler::ident ID(long long i) { return reinterpret_cast<scheduler::ide
 // protected members are reached through a derived class (no source hooks)
 struct sch_t : scheduler {
     using scheduler::scheduler;
+    const void *cond_addr() const { return &_cond; }
     std::string dump() {
         std::lock_guard _(_mx);
         std::ostringstream os;
@@ -405,6 +478,115 @@ static void run_start(std::istream &in, long long t0) {
     }
 }
 
+// ------------------------------------------------------------------------------------------------
+// thread / thread-pool mode under virtual time: the scheduler's worker runs in a real std::thread (`thr`) or as a
+// coroutine on the threads of a real cocls::thread_pool (`pool <n>`).  The main thread acts only while every worker
+// thread is parked, and `adv <t>` moves the clock from one wait deadline to the next up to <t>, so the trace is
+// deterministic.  Completions carry the clock reading at which the main thread observed them: `sleep#k=ok@<clock>`.
+// ------------------------------------------------------------------------------------------------
+static void run_mt(std::istream &in, const std::string &kind, int nthr) {
+    vt::single_thread = false;
+    vt::now_ticks = 0;
+    vt::waiters.clear();
+    vt::blocked = 0;
+    vt::nthreads = kind == "thr" ? 1 : nthr;
+    std::thread thr;
+    std::unique_ptr<thread_pool> pool;
+    std::unique_ptr<sch_t> sch;
+    if (kind == "thr") {
+        sch.reset(new sch_t(thr));
+    } else {
+        pool.reset(new thread_pool(nthr));
+        sch.reset(new sch_t(*pool));
+    }
+    vt::watch_cv = sch->cond_addr();
+    vt::quiesce();
+    vh::fut_set<void> sl("sleep");
+    std::vector<std::string> evs;
+    auto poll = [&] {
+        std::size_t n0 = evs.size();
+        sl.poll(evs);
+        for (std::size_t i = n0; i < evs.size(); ++i) evs[i] += "@" + std::to_string(vt::now_ticks.load());
+    };
+    auto shutdown = [&] {
+        // ~scheduler: request_stop, wait for the worker; then every promise still in the vector is dropped
+        sch.reset();
+        if (thr.joinable()) thr.join();
+        vt::nthreads = kind == "thr" ? 0 : nthr;
+        if (pool) {
+            vt::quiesce();
+            vt::nthreads = 0;
+            pool.reset();
+        }
+        poll();
+        vt::single_thread = true;
+        vt::watch_cv = nullptr;
+    };
+    std::string line;
+    while (std::getline(in, line)) {
+        auto w = vh::split(line);
+        if (w.empty()) continue;
+        std::ostringstream head;
+        auto num = [&](std::size_t i) { return w.size() > i ? atoll(w[i].c_str()) : 0LL; };
+        if (w[0] == "end" || w[0] == "destroy") {
+            shutdown();
+            if (w[0] == "destroy") {
+                vh::emit("destroy", evs);
+                while (std::getline(in, line)) {
+                    auto w2 = vh::split(line);
+                    if (!w2.empty() && w2[0] == "end") break;
+                }
+            }
+            vh::emit("end", evs);
+            return;
+        } else if (w[0] == "sleep" || w[0] == "sched") {
+            long long tp = num(1), id = num(2);
+            unsigned long n0 = vt::notifies;
+            std::size_t k;
+            if (w[0] == "sleep") k = sl.add([&] { return sch->sleep_until(TP(tp), ID(id)); });
+            else k = sl.add([&](scheduler::promise p) { sch->schedule(ID(id), std::move(p), TP(tp)); });
+            // the worker may already be resolving it: its completion is reported by the poll after quiescence
+            head << "sleep#" << k << " ntf=" << (vt::notifies - n0);
+        } else if (w[0] == "adv") {
+            long long T = num(1);
+            for (;;) {
+                {
+                    std::lock_guard g(vt::G);
+                    long long d = vt::next_deadline_lk();
+                    if (d > T) break;
+                    if (d > vt::now_ticks.load()) vt::now_ticks = d;
+                    vt::reads = 0;
+                    long long nowv = vt::now_ticks.load();
+                    vt::wake_lk([&](const vt::waiter &x) { return x.deadline <= nowv; }, false);
+                }
+                vt::quiesce();
+                poll();
+            }
+            if (T > vt::now_ticks.load()) vt::now_ticks = T;
+            head << "adv";
+        } else if (w[0] == "cancel") {
+            head << "cancel " << (bool)sch->cancel(ID(num(1)));
+        } else if (w[0] == "cancelx") {
+            head << "cancel " << (bool)sch->cancel(ID(num(1)), std::make_exception_ptr(test_exc((int)num(2))));
+        } else if (w[0] == "remove") {
+            scheduler::promise p = sch->remove(ID(num(1)));
+            if (p) {
+                head << "remove 1";
+                p();
+            } else {
+                head << "remove 0";
+            }
+        } else if (w[0] == "dump") {
+            head << "dump " << sch->dump();
+        } else {
+            head << "bad-op";
+        }
+        vt::quiesce();
+        poll();
+        vh::emit(head.str(), evs);
+    }
+}
+
 int main() {
     std::string line;
     while (std::getline(std::cin, line)) {
@@ -416,6 +598,7 @@ int main() {
         const std::string kind = w.size() > 2 ? w[2] : "";
         if (kind == "man") run_manual(std::cin);
         else if (kind == "run") run_start(std::cin, w.size() > 3 ? atoll(w[3].c_str()) : 0);
+        else if (kind == "thr" || kind == "pool") run_mt(std::cin, kind, w.size() > 3 ? atoi(w[3].c_str()) : 2);
         else std::cout << "bad-kind\n";
         std::cout.flush();
     }
